@@ -2,7 +2,7 @@
 from .. import core, econ, econgen, econprops
 
 ID = 'C08'
-RUNS = {'quick': 700, 'thorough': 30000}
+RUNS = {'quick': 600, 'thorough': 30000}
 WALL_CAP = {'quick': 75, 'thorough': 1800}
 BLOCK = 6
 RULE = ('runs = seeded ECON programs turned into a dependency graph (an object exists before it is passed to another '
